@@ -297,7 +297,17 @@ Section Backup.
     end.
 
   Definition b_force_backup (name : str) : M unit :=
-    rn <- real_path name ;; try_remove_backup rn ;;; try_backup rn.
+    rn <- real_path name ;;
+    prev <- already_seen rn ;;
+    try_remove_backup rn ;;;
+    r <- try_ (try_backup rn) ;;
+    match r with
+    | Ok _ => ret tt
+    | Err e =>
+        (* the path did not exist when first seen and its new backup could not
+           be taken: the record is kept *)
+        (match prev with Some None => set_info_if_new rn None | _ => ret tt end) ;;; fail e
+    end.
 
   (** * Rollback *)
 
